@@ -32,6 +32,10 @@ fn cfg_for(config: &str) -> GenCfg {
     "x-hidden-td" | "x-overlap-td" | "x-cycle-td" | "x-any-td" => { c.class = Class::X; }
     "x-hidden-bu" | "x-overlap-bu" | "x-cycle-bu" | "x-any-bu" => { c.class = Class::X; c.bottom_up = 50; c.td_between = true; }
     "v-td" => { c.class = Class::V; }
+    "v-td-crash" => { c.class = Class::V; c.crash = true; }
+    "v-bu-big" => { c.class = Class::V; c.bottom_up = 70; c.td_between = true; c.big = true; }
+    "x-any-crash" => { c.class = Class::X; c.crash = true; }
+    "bu-big-replay" => { c.replays = 2; c.bottom_up = 100; c.big = true; }
     "v-bu" => { c.class = Class::V; c.bottom_up = 50; c.td_between = true; }
     "m-td" => { c.class = Class::M; }
     "m-bu" => { c.class = Class::M; c.bottom_up = 60; c.all_roots_td = true; }
